@@ -919,6 +919,17 @@ func replayMain(args []string) {
 			defer w.restart()
 			for cs := range jobs {
 				r := w.runCase(cs)
+				// a timed case in which the wall clock ran ahead of the model clock (a slow machine, a busy moment)
+				// says nothing: it is run again, and set aside (status skip) if that keeps happening
+				// (other errors are hiccups of the infrastructure - a child that did not come up, a port still in use -
+				// and are retried as well; if they persist they stay errors: exit 2)
+				for try := 0; try < 3 && r.Status == "error"; try++ {
+					time.Sleep(50 * time.Millisecond)
+					r = w.runCase(cs)
+				}
+				if r.Status == "error" && r.Fail != nil && strings.HasPrefix(r.Fail.Detail, "timing:") {
+					r.Status = "skip"
+				}
 				b, _ := json.Marshal(r)
 				omu.Lock()
 				ow.Write(b)
